@@ -108,31 +108,78 @@ class PLit:
     def dense(self):
         return {(i, j): v for (i, j, v) in self.trip if v != 0}
 
-def gen_par(ctx, n, P):
-    rng = ctx.rng; cases = []
-    for k in range(n):
-        cid = "p%d_%d" % (P, k)
-        mode = rng.choice(["pm1", "pm1", "int", "dyadic"])
-        kind = rng.choice(["pmult", "pmult", "pmult_T", "pmult_T", "pgalerkin"])
-        tap = rng.choice([0, 0, 4, 2]) if P > 1 else rng.choice([0, 4])
-        form = rng.choice(["csc", "csr"])
-        hi = rng.choice([3, 6, 9])
-        if kind == "pgalerkin":
-            nf = rng.randint(1, hi); ncs = rng.randint(1, nf)
-            pa = rand_partition(rng, nf, P); pc = rand_partition(rng, ncs, P)
-            A = PLit(nf, nf, P, pa, pa, par_triples(rng, nf, nf, mode))
-            B = PLit(nf, ncs, P, pa, pc, par_triples(rng, nf, ncs, mode))
-        else:
-            n1, n2, n3 = rng.randint(1, hi), rng.randint(1, hi), rng.randint(1, hi)
-            p1, p2, p3 = rand_partition(rng, n1, P), rand_partition(rng, n2, P), rand_partition(rng, n3, P)
-            if kind == "pmult":      # A n1 x n2 (rows p1, cols p2), B n2 x n3 (rows p2, cols p3)
-                A = PLit(n1, n2, P, p1, p2, par_triples(rng, n1, n2, mode))
-            else:                    # C = A^T B: A n2 x n1 (rows p2, cols p1), B n2 x n3 (rows p2, cols p3)
-                A = PLit(n2, n1, P, p2, p1, par_triples(rng, n2, n1, mode))
-            B = PLit(n2, n3, P, p2, p3, par_triples(rng, n2, n3, mode))
-        cases.append(dict(cid=cid, kind=kind, A=A, B=B, tap=tap, form=form, P=P, mode=mode,
-                          line=" ".join([cid, kind, str(tap), form] + A.tokens() + B.tokens())))
-    return cases
+def sub_partition(rng, parent):
+    """blocks no larger than the parent's blocks (a coarse grid inside each rank's fine rows); total >= 1 if possible"""
+    P = len(parent) - 1
+    sizes = [rng.randint(0, parent[r + 1] - parent[r]) for r in range(P)]
+    if sum(sizes) == 0:
+        cand = [r for r in range(P) if parent[r + 1] > parent[r]]
+        if cand: sizes[rng.choice(cand)] = 1
+    firsts = [0]
+    for z in sizes: firsts.append(firsts[-1] + z)
+    return firsts
+
+def triggers(c):
+    """classes tied to the two defects found while building this check:
+       wide  = some rank owns more rows of C = A^T B than rows of the factors (mult_T / Galerkin): before the fix of
+               CSRMatrix::add_append the row pointer array of C overflowed; kept in the normal batch as regression
+       split = init_matrix() takes the collective Partition(A,B) branch on some ranks only (mult): deadlock (open finding)"""
+    A, B, P = c["A"], c["B"], c["P"]; out = set()
+    blk = lambda f, r: (f[r + 1] - f[r], f[r], f[r + 1] - 1)
+    if c["kind"] in ("pmult_T", "pgalerkin"):
+        pm = A.fcol if c["kind"] == "pmult_T" else B.fcol          # rows of C
+        pk = A.frow                                                # rows of the factors
+        if any(pm[r + 1] - pm[r] > pk[r + 1] - pk[r] for r in range(P)): out.add("wide")
+    if c["kind"] in ("pmult", "pgalerkin"):
+        br = []
+        for r in range(P):
+            rowsame = A.nr == B.nr and blk(A.frow, r) == blk(B.frow, r)
+            colsame = A.nc == B.nc and blk(A.fcol, r) == blk(B.fcol, r)
+            br.append("B" if rowsame else "A" if colsame else "AB")
+        if "AB" in br and len(set(br)) > 1: out.add("split")
+    return out
+
+def gen_par_one(rng, cid, P):
+    mode = rng.choice(["pm1", "pm1", "int", "dyadic"])
+    kind = rng.choice(["pmult", "pmult", "pmult_T", "pmult_T", "pgalerkin"])
+    # topology-aware runs only on process grids raptor's TAPComm supports: full nodes (P % PPN == 0) or a single node
+    ppns = [q for q in (2, 3, 4, 8) if P % q == 0 or q >= P]
+    tap = rng.choice([0, 0] + ppns[:2] + [rng.choice(ppns)])
+    form = rng.choice(["csc", "csr"])
+    hi = rng.choice([3, 6, 9])
+    if kind == "pgalerkin":
+        nf = rng.randint(1, hi)
+        pa = rand_partition(rng, nf, P)
+        if rng.random() < 0.6: pc = sub_partition(rng, pa); ncs = pc[-1]
+        else: ncs = rng.randint(1, nf); pc = rand_partition(rng, ncs, P)
+        A = PLit(nf, nf, P, pa, pa, par_triples(rng, nf, nf, mode))
+        B = PLit(nf, ncs, P, pa, pc, par_triples(rng, nf, ncs, mode))
+    elif kind == "pmult":        # A n1 x n2 (rows p1, cols p2), B n2 x n3 (rows p2, cols p3)
+        n1, n2, n3 = rng.randint(1, hi), rng.randint(1, hi), rng.randint(1, hi)
+        p1, p2, p3 = rand_partition(rng, n1, P), rand_partition(rng, n2, P), rand_partition(rng, n3, P)
+        A = PLit(n1, n2, P, p1, p2, par_triples(rng, n1, n2, mode))
+        B = PLit(n2, n3, P, p2, p3, par_triples(rng, n2, n3, mode))
+    else:                        # C = A^T B: A n2 x n1 (rows p2, cols p1), B n2 x n3 (rows p2, cols p3)
+        n2, n3 = rng.randint(1, hi), rng.randint(1, hi)
+        p2, p3 = rand_partition(rng, n2, P), rand_partition(rng, n3, P)
+        if rng.random() < 0.4: p1 = sub_partition(rng, p2); n1 = p1[-1]
+        else: n1 = rng.randint(1, hi); p1 = rand_partition(rng, n1, P)
+        A = PLit(n2, n1, P, p2, p1, par_triples(rng, n2, n1, mode))
+        B = PLit(n2, n3, P, p2, p3, par_triples(rng, n2, n3, mode))
+    c = dict(cid=cid, kind=kind, A=A, B=B, tap=tap, form=form, P=P, mode=mode,
+             line=" ".join([cid, kind, str(tap), form] + A.tokens() + B.tokens()))
+    c["trig"] = triggers(c)
+    return c
+
+def gen_par(ctx, n, P, n_trig):
+    """n cases for the normal batch (the 'wide' class included: regression for the fixed add_append overflow) + up to
+       n_trig cases of the 'split' class (open finding: init_matrix deadlock), which run in separate short launches"""
+    rng = ctx.rng; bulk = []; pool = []; k = 0
+    while len(bulk) < n and k < 50 * n + 100:
+        c = gen_par_one(rng, "p%d_%d" % (P, k), P); k += 1
+        if "split" not in c["trig"]: bulk.append(c)
+        elif len(pool) < n_trig: pool.append(c)
+    return bulk, pool
 
 # ----------------------------------------------------------------------------------------------------------------
 # reference (the property's own observable): exact dense products
@@ -248,6 +295,7 @@ def parse_rank(toks):
         elif t == "NNZ": d["NNZ"] = tuple(ints(i + 1, 3)); i += 4
         elif t == "NC": d["NC"] = tuple(ints(i + 1, 4)); i += 5
         elif t == "PART": d["PART"] = tuple(ints(i + 1, 6)); i += 7
+        elif t == "I1": d["I1"] = tuple(ints(i + 1, 2)); i += 3
         elif t in ("ONMAP", "OFFMAP"):
             n = int(toks[i + 1]); d[t] = ints(i + 2, n); i += 2 + n
         elif t == "ROWS":
@@ -264,6 +312,12 @@ def parse_rank(toks):
         elif t == "END": i += 1
         else: raise ValueError("unexpected token %r at %d" % (t, i))
     return d
+
+def idx1_overflow(ranks):
+    for r, d in enumerate(ranks):
+        if d.get("I1") and min(d["I1"]) < d.get("L", 0) + 1:
+            return "rank %d: on_proc/off_proc row pointer arrays have %s entries but the block has %d rows (add_append wrote past the end)" % (r, d["I1"], d["L"])
+    return None
 
 def check_dist_matrix(ranks, ref, nr, nc, prow, pcol, condensed_offmap):
     """the property on the implementation's gathered output: global operator, ownership, block structure"""
@@ -337,14 +391,28 @@ def judge_par(ctx, c, impl, model):
     if A.trip and B.trip and dclean(checks[-1][1]): ctx.nontrivial.add(c["line"].split(" ", 1)[1])
     ctx.sample(c["line"])
     sig = "par:%s:%s" % (c["kind"], "tap" if c["tap"] else "std") + (":" + c["form"] if c["kind"] != "pmult" else "")
+    trig = c.get("trig") or triggers(c)
+    for t in sorted(trig): ctx.count("par_trigger_" + t)
     if "CRASH" in ri or any(k not in ri for k, *_ in checks):
-        ctx.signal("O", sig + ":crash", "implementation failed on case (P=%d): %s" % (c["P"], str(ri)[:300]), case=c["line"]); return
+        hung = "CRASH" in ri and "rc=124" in ri["CRASH"]
+        if "split" in trig and hung:
+            ctx.signal("O", "par:pmult:init_matrix_deadlock", "A->mult(B) does not return (P=%d): init_matrix() takes the collective "
+                       "Partition(A,B) branch on some ranks only" % c["P"], case=c["line"])
+        elif "wide" in trig:
+            ctx.signal("O", "par:pmult_T:idx1_overflow", "mult_T crashed (P=%d) on a case where a rank owns more rows of A^T B than "
+                       "rows of the factors (heap overflow in add_append): %s" % (c["P"], str(ri.get("CRASH"))[:200]), case=c["line"])
+        else:
+            ctx.signal("O", sig + (":hang" if hung else ":crash"), "implementation failed on case (P=%d): %s" % (c["P"], str(ri)[:300]), case=c["line"])
+        return
     parsed_i = {}
     for (key, ref, nr, nc, prow, pcol, cond) in checks:
         try:
             parsed_i[key] = [parse_rank(t) for t in split_ranks(ri[key])]
         except Exception as e:
             ctx.signal("O", sig + ":malformed", "cannot read implementation output %s: %s" % (key, e), case=c["line"]); return
+        ov = idx1_overflow(parsed_i[key])
+        if ov:
+            ctx.signal("O", "par:pmult_T:idx1_overflow", "%s (P=%d): %s" % (key, c["P"], ov), case=c["line"]); break
         ok, why = check_dist_matrix(parsed_i[key], ref, nr, nc, prow, pcol, cond)
         if not ok:
             ctx.signal("O", sig, "%s (P=%d, tap=%d): %s" % (key, c["P"], c["tap"], why), case=c["line"]); break
@@ -373,15 +441,19 @@ def run(ctx):
         lines = list(ctx.replay)
         seq = [case_from_line(l) for l in lines if l.split()[1] in ("spgemm", "spgemm_T", "galerkin")]
         par = [case_from_line(l) for l in lines if l.split()[1] in ("pmult", "pmult_T", "pgalerkin")]
-        par_by_P = {}
-        for c in par: par_by_P.setdefault(c["P"], []).append(c)
+        par_by_P = {}; trig_cases = []
+        for c in par:
+            c["trig"] = triggers(c)
+            if "split" in c["trig"]: trig_cases.append(c)
+            else: par_by_P.setdefault(c["P"], []).append(c)
     else:
         seq = gen_seq(ctx, ctx.scale(1500, 20000))
-        par_by_P = {}
-        plan = [(1, 60, 600), (2, 220, 2500), (3, 220, 2500), (4, 220, 2500), (5, 60, 1200), (7, 40, 1200)]
-        for (P, q, t) in plan:
-            par_by_P[P] = gen_par(ctx, ctx.scale(q, t), P)
-    allc = seq + [c for P in sorted(par_by_P) for c in par_by_P[P]]
+        par_by_P = {}; trig_cases = []
+        plan = [(1, 60, 600, 1), (2, 220, 2500, 1), (3, 220, 2500, 1), (4, 220, 2500, 1), (5, 60, 1200, 0), (7, 40, 1200, 0)]
+        for (P, q, t, nt) in plan:
+            par_by_P[P], tc = gen_par(ctx, ctx.scale(q, t), P, ctx.scale(nt, 3))
+            trig_cases += tc
+    allc = seq + [c for P in sorted(par_by_P) for c in par_by_P[P]] + trig_cases
     cf = fw.write_cases(ctx, "c06.cases", [c["line"] for c in allc])
     rcm, model, _, errm = fw.run_model(ctx, cf)
     if rcm != 0: ctx.signal("K", "modeldriver", "model driver exited with %s: %s" % (rcm, errm[-400:]))
@@ -391,8 +463,13 @@ def run(ctx):
     for P in sorted(par_by_P):
         cs = par_by_P[P]
         if not cs: continue
-        impl, crashed = fw.run_impl_lines(ctx, "drv_spgemm", [c["line"] for c in cs], nprocs=P, name="c06par%d" % P, timeout=1200)
+        impl, crashed = fw.run_impl_lines(ctx, "drv_spgemm", [c["line"] for c in cs], nprocs=P, name="c06par%d" % P,
+                                          timeout=ctx.scale(120, 600), max_restarts=6)
         for c in cs: judge_par(ctx, c, impl, model)
+    # cases of the 'split' class (open finding init_matrix_deadlock): one launch each, short timeout (the symptom is a hang)
+    for c in trig_cases:
+        impl, crashed = fw.run_impl_lines(ctx, "drv_spgemm", [c["line"]], nprocs=c["P"], name="c06trig_" + c["cid"], timeout=8, max_restarts=0)
+        judge_par(ctx, c, impl, model)
 
 # ----------------------------------------------------------------------------------------------------------------
 def case_from_line(line):
